@@ -413,3 +413,43 @@ Proof. intros H. rewrite Nat.add_comm, Nat.mod_add by lia. apply Nat.mod_small. 
 
 Lemma set_nth_nat_id {A : Type} (d : A) (l : list A) (k : nat) : set_nth_nat l k (nth k l d) = l.
 Proof. revert k; induction l as [|a l IH]; intros [|k]; cbn; try reflexivity. f_equal. apply IH. Qed.
+
+(* ---- `out = np.empty(len(x)); for i in range(len(x)): out[i] = h x[i]` ----------------------------------------------- *)
+Lemma for_range_fill1 (N : Num) (h : N -> N) (x : list N) (f : Z -> list N -> list N) :
+  (forall k d, f (Z.of_nat k) d = vset N d (Z.of_nat k) (h (vnth N x (Z.of_nat k)))) ->
+  for_range 0 (zlen x) f (vzeros N (zlen x)) = map h x.
+Proof.
+  intros H. rewrite for_range_zlen. unfold vzeros, zlen. rewrite Nat2Z.id.
+  rewrite (fold_left_ext _ (fun d k => set_nth_nat d k (h (nth k x (zero N))))).
+  - pose proof (fill_fold (fun k => h (nth k x (zero N))) (length x) [] (repeat (zero N) (length x)) (repeat_length _ _)) as F.
+    cbn [app length] in F. rewrite F. apply map_seq_nth.
+  - intros d k. rewrite H. unfold vset. rewrite zset_of_nat, vnth_of_nat. reflexivity.
+Qed.
+
+(* ---- `k in set(a)`: on an index array that is the image of a list of naturals --------------------------------------- *)
+Lemma zmem_of_nat (k : nat) (l : list nat) : zmem (Z.of_nat k) (map Z.of_nat l) = existsb (Nat.eqb k) l.
+Proof. unfold zmem. induction l as [|j l IH]; [reflexivity|]. cbn [map existsb]. rewrite Z_eqb_of_nat, IH. reflexivity. Qed.
+(* ---- slices `a[lo:hi]`, slice stores `x[lo:hi] = e` --------------------------------------------------------------- *)
+Lemma slice_idx_of_nat (len : Z) (k : nat) : slice_idx len (Z.of_nat k) = k.
+Proof. unfold slice_idx. destruct (Z.ltb_spec (Z.of_nat k) 0); [lia|]. apply Nat2Z.id. Qed.
+
+Lemma zslice_of_nat {A : Type} (l : list A) (a b : nat) : zslice l (Z.of_nat a) (Z.of_nat b) = skipn a (firstn b l).
+Proof. unfold zslice. rewrite !slice_idx_of_nat. reflexivity. Qed.
+
+(* the segment [len p, len p + len r) of p ++ r ++ s *)
+Lemma zslice_app3 {A : Type} (p r s : list A) :
+  zslice (p ++ r ++ s) (Z.of_nat (length p)) (Z.of_nat (length p + length r)) = r.
+Proof.
+  rewrite zslice_of_nat. rewrite app_assoc. replace (length p + length r) with (length (p ++ r)) by apply app_length.
+  rewrite firstn_app, firstn_all, Nat.sub_diag. cbn [firstn]. rewrite app_nil_r.
+  rewrite skipn_app, skipn_all, Nat.sub_diag. reflexivity.
+Qed.
+
+Lemma zset_slice_app3 {A : Type} (p r s e : list A) : length e = length r ->
+  zset_slice (p ++ r ++ s) (Z.of_nat (length p)) (Z.of_nat (length p + length r)) e = p ++ e ++ s.
+Proof.
+  intros L. unfold zset_slice. rewrite zslice_app3, L, Nat.eqb_refl, slice_idx_of_nat.
+  rewrite firstn_app, firstn_all, Nat.sub_diag. cbn [firstn]. rewrite app_nil_r. f_equal. f_equal.
+  rewrite app_assoc. replace (length p + length r) with (length (p ++ r)) by apply app_length.
+  rewrite skipn_app, skipn_all, Nat.sub_diag. reflexivity.
+Qed.
